@@ -110,7 +110,7 @@ class C10Mixin(object):
     def ev_mutate(self, tbl, ref, target, arg=None):
         a = self.atom(tbl, ref)
         v = 1.2345 if arg is None else arg
-        if target in ("_mass", "_density", "_abundance", "covalent_radius", "covalent_radius_uncertainty",
+        if target in ("_mass", "_density", "_abundance", "_mass_unc", "_abundance_unc", "covalent_radius", "covalent_radius_uncertainty",
                       "K_alpha", "K_beta1", "density_caveat", "nuclear_spin"):
             setattr(a, target, v)
             return "ok"
